@@ -116,12 +116,15 @@ fn disabled_c04_q_timespan_any_offset() {
 
 
 /// The month length used by the weekday selectors never panics and is the arithmetic month length on
-/// every supported date (the weekday harnesses above replace it by that specification).
+/// EVERY chrono-representable date (a huge day offset moves the anchor of `Mo[1] -95006361 days` to the
+/// last representable December); the weekday harnesses above replace it by that specification.
 #[kani::proof]
 fn c04_q_count_days_in_month_total() {
-    let d = any_date();
+    let d = any_date_in(-262_143, 262_142);
     assert_eq!(opening_hours::verif_hooks::count_days_in_month(d), month_len(d.year(), d.month()));
     kani::cover!(d.year() % 400 == 0 && d.month() == 2, "February of a year divisible by 400 reachable");
+    kani::cover!(d.year() == 262_142 && d.month() == 12, "last representable December reachable");
+    kani::cover!(d.year() == -262_143 && d.month() == 1, "first representable January reachable");
 }
 
 /// `1900-9999/65535`: a year range with ANY step 1..=65535 and any bounds the parser accepts
